@@ -560,7 +560,15 @@ def doWheight (st : St) (fs : List String) : St × List String :=
     let impl := splitList fwd ","
     let cfg := c.cfg
     let before := c.st
-    let (s', entries) := stepHeight cfg o height now before
+    -- `height` is the height the node reported last (ground truth); with via=fh it reached the event loop through the real
+    -- height poller, which passed on `passed`.  Model and Spec both refer to the node's own answer.
+    let viaFH := kv fs "via" == some "fh"
+    let passed := (kv fs "passed").getD "-"
+    if (kvB fs "stall").getD false then
+      ({ st with c := c.addSpec "height-not-resent the block poller is enabled but the height poller asked the node for nothing within 2 s" }, [])
+    else
+    let heightErr := viaFH && reqs.contains "height>e"
+    let (s', entries) := stepPolled cfg o (if heightErr then none else some height) now before
     let model := sortStrs (entries.map fun e => showPub (pubOf e))
     let injected := reqs.any fun r => r.endsWith ">e"
     -- Spec (C08) on what the implementation forwarded, against everything delivered to the event loop so far
@@ -580,7 +588,7 @@ def doWheight (st : St) (fs : List String) : St × List String :=
       match firstFailing cands with
       | some cl =>
         if cl = "unknown" then some s!"poll-forwarded-altered {p} corresponds to no event delivered to the event loop"
-        else some s!"{cl} forwarded {p} at height {height}"
+        else some s!"{cl} forwarded {p} while the node reports height {height} (height handed to the event loop: {passed})"
       | none =>
         let good := cands.filter fun cd => cd.all (·.2)
         if count p impl + count p c.fwdAll > cands.length then
@@ -592,13 +600,14 @@ def doWheight (st : St) (fs : List String) : St × List String :=
                     else specFwd) with | some s => c.addSpec s | none => c
     let c := if injected then { c with faulted := true } else c
     -- comparison with the model
-    let expReqs := sortStrs (before.pending.flatMap fun pb =>
+    let expReqs := sortStrs ((if viaFH then [s!"height>{height}"] else []) ++ before.pending.flatMap fun pb =>
       (match o.main pb.block with | some b => [s!"main:{pb.block}>{if b then "1" else "0"}"] | none => [s!"main:{pb.block}>e"]) ++
       (match pb.hdr, o.main pb.block with
        | none, some _ => (match o.hdr pb.block with | some h => [s!"hdr:{pb.block}>{h.height}:{h.ts}"] | none => [s!"hdr:{pb.block}>e"])
        | _, _ => []))
     let c :=
       if exit ≠ !s'.alive then c.addDiff s!"height tick exit: model={!s'.alive} impl={exit}"
+      else if !exit && passed ≠ toString height then c.addDiff s!"height handed to the event loop: node reported {height}, implementation passed {passed}"
       else if model ≠ impl then c.addDiff s!"height tick {height} forwarded: model={model} impl={impl}"
       else if !exit && reqs ≠ expReqs then c.addDiff s!"height tick requests: model={expReqs} impl={reqs}"
       else if !exit && s'.enabled ≠ en then c.addDiff s!"block poller enabled after height tick: model={s'.enabled} impl={en}"
@@ -621,18 +630,42 @@ def doWheight (st : St) (fs : List String) : St × List String :=
     ({ st with c := c, heights := st.heights + 1, fwd := st.fwd + impl.length }, [])
   | _, _, _, _, _, _, _, _ => ({ st with c := c.addDiff "unparsable wheight line" }, [])
 
+/-- `wskip`: the poller is disabled, so no height reaches the event loop.  On a drain tick nothing final may still be owed. -/
+def doWskip (st : St) (fs : List String) : St × List String :=
+  let c := st.c
+  match kvInt fs "height", kvInt fs "now", (kv fs "main").bind parseMainTbl, (kv fs "hdr").bind parseHdrTbl with
+  | some height, some now, some mainT, some hdrT =>
+    let o := oracleOf ⟨mainT, hdrT⟩
+    let drain := (kvB fs "drain").getD false
+    let c :=
+      if drain && !c.faulted && c.st.alive then
+        let owed := c.tracked.filterMap fun (u, stayed) =>
+          match o.hdr u.ev.block with
+          | some h => if stayed && o.main u.ev.block == some true && u.ev.idx == 0 && u.msg.sender == c.cfg.bridge
+                         && isEventConfirmed u.msg h now height c.cfg.mainnet
+                      then some (showPub (pubOf (u, h))) else none
+          | none => none
+        match owed.find? (fun p => count p c.fwdAll < count p owed) with
+        | some p => c.addSpec s!"poller-not-enabled {p} is final and still owed to the signer, but the block poller is disabled: no height tick will ever process it"
+        | none => c
+      else c
+    let c := if c.st.alive && c.st.enabled then c.addDiff "block poller: model enabled, implementation disabled (tick skipped)" else c
+    ({ st with c := c }, [])
+  | _, _, _, _ => ({ st with c := c.addDiff "unparsable wskip line" }, [])
+
 def step (st : St) (line : String) : St × List String :=
   let fs := fields line
   match fs with
   | [] => (st, [])
   | op :: id :: rest =>
     if op = "winit" then doWinit st id rest
-    else if op = "wbatch" || op = "wtick" || op = "wheight" then
+    else if op = "wbatch" || op = "wtick" || op = "wheight" || op = "wskip" then
       if !st.c.active || st.c.id ≠ id then
         let (st, out) := flush st
         ({ st with n := st.n + 1 }, out ++ [s!"diff {id} {op} line outside a case"])
       else if op = "wbatch" then doWbatch st rest
       else if op = "wtick" then doWtick st rest
+      else if op = "wskip" then doWskip st rest
       else doWheight st rest
     else
       let (st, out) := flush st
